@@ -6,14 +6,14 @@ META = {
  'C01': ('E-enum', 'bounded-exhaustive enumeration of rule x kind x bounds x values x carriers on the real entry points vs interval reference model', '5/C01'),
  'C02': ('E-enum', 'bounded-exhaustive enumeration of synthesised struct types x rule lists x values vs walk reference model (clause list, order, separators)', '5/C02'),
  'C03': ('E-enum', 'complete product of supported field types x emptiness x rules x four entry points vs emptiness model', '5/C03'),
- 'C04': ('E-enum', 'bounded-exhaustive enumeration of acyclic object graphs (depth<=3, thorough 4; chains to depth 200; 130-field structs; shared sub-objects) vs walk reference model (expected path set), on the default type cache and again on the library's own one-entry LRU', '5/C04'),
+ 'C04': ('E-enum', 'bounded-exhaustive enumeration of acyclic object graphs (depth<=3, thorough 4; chains to depth 200; 130-field structs; shared sub-objects) vs walk reference model (expected path set), on the default type cache and again on the one-entry LRU of the library', '5/C04'),
  'C05': ('E-enum', 'exhaustive strings over small alphabets + complete one-edit neighbourhoods of members vs independent recognisers', '5/C05'),
  'C06': ('E-enum', 'bounded-exhaustive enumeration of Go source files from a field-shape grammar through ParseFile/WriteFile and the built CLI vs independent tag merger', '5/C06'),
  'C07': ('E-seq', 'explicit-state BFS over directory states under real CLI/library runs until closure; idempotence invariants on every transition', '5/C07'),
- 'C08': ('E-seq', 'all call histories up to a depth x cache configurations x start states (cold, warmed, flushed, churned to every residue of the LRU rebuild counter) x enumerated cache Load-miss answers, plus worker modes on the package default, the library's own LRU(0/1/2) and a sync.Map handed over directly, vs pure-function model + cross-configuration differential', '5/C08'),
+ 'C08': ('E-seq', 'all call histories up to a depth x cache configurations x start states (cold, warmed, flushed, churned to every residue of the LRU rebuild counter) x enumerated cache Load-miss answers, plus worker modes on the package default, the LRU(0/1/2) of the library and a sync.Map handed over directly, vs pure-function model + cross-configuration differential', '5/C08'),
  'C09': ('E-seq', 'all operation sequences up to a depth on the real LRUCache, lock-step against a reference LRU model', '5/C09'),
  'C10': ('E-sched', 'stateless model checking: all interleavings (preemption-bounded / unbounded) of 2-4 thread harnesses on the real LRUCache under a controlled scheduler (incl. operations that fail inside the critical section and values that are not comparable); linearizability (porcupine + brute force) and race detector on every schedule', '5/C10'),
- 'C11': ('E-sched', 'stateless model checking of 2-4 concurrent validation calls under a controlled scheduler with sync.Pool answers as choice points, on wrapped caches, the library's own LRU(1) and a sync.Map handed over directly; solo-result oracle + race detector on every schedule', '5/C11'),
+ 'C11': ('E-sched', 'stateless model checking of 2-4 concurrent validation calls under a controlled scheduler with sync.Pool answers as choice points, on wrapped caches, the LRU(1) of the library and a sync.Map handed over directly; solo-result oracle + race detector on every schedule', '5/C11'),
  'C12': ('E-seq', 'all call sequences/permutations up to a depth, single-threaded under the controlled scheduler so every sync.Pool answer is enumerated; fresh-state oracle + aliasing re-reads', '5/C12'),
  'C13': ('E-enum', 'value-shape catalogue x entry points and bounded-exhaustive rule-text spaces (token sequences, all single-byte edits of seed rules); oracle = returns normally', '5/C13'),
  'C14': ('E-enum', 'all rule lists over keys x values x messages through GenValidKV/RM.Set/ValidNamesSplit/ParseValidNameKV + all strings up to a length for the no-loss law', '5/C14'),
